@@ -1,10 +1,10 @@
 /* C19 (outgoing) — the real bluetoe::link_layer::ll_l2cap_sdu_buffer<Radio, Callbacks, MTU>: allocate_l2cap_transmit_buffer(),
  * commit_l2cap_transmit_buffer(), try_send_pdus() (through commit, next_ll_l2cap_received() and allocate_ll_transmit_buffer()).
  *
- * From construction the L2CAP layer allocates a buffer for an SDU with a symbolic payload size N <= MTU, fills it (LL header
+ * From construction the L2CAP layer allocates a buffer for an SDU of payload size N <= MTU (case parameter), fills it (LL header
  * bytes, L2CAP length = N, CID, payload: all symbolic), commits it, and then calls next_ll_l2cap_received() resp.
- * allocate_ll_transmit_buffer() ROUNDS times.  The radio below has a transmit buffer available or not (symbolic for every
- * request), its maximum PDU size is TXMAX (header + layout overhead + payload).
+ * allocate_ll_transmit_buffer() ROUNDS times.  The radio below has a transmit buffer available or not (pattern AV, case
+ * parameter), its maximum PDU size is TXMAX (header + layout overhead + payload).
  *
  * Oracle (from the property statement):
  *   - every PDU committed to the radio lies in the buffer the radio handed out and is not larger than max_tx_size()
@@ -16,16 +16,30 @@
  *     the SDU is complete after the commit
  *   - the radio's receive side is empty: nothing is delivered
  *
- * case parameters: CFG (shims/sdu.cpp), TXMAX, ROUNDS, N payload size of the SDU (-1: symbolic),
- *                  AV bit i: the radio has a buffer for its i-th allocation request (-1: symbolic)
+ * case parameters: CFG (shims/sdu.cpp), TXMAX, ROUNDS, N payload size of the SDU, AV bit i: the radio has a buffer for its i-th
+ *                  allocation request, LL bit r: round r is next_ll_l2cap_received() (else allocate_ll_transmit_buffer()),
+ *                  MAXCOPY = TXMAX (bound of the copy loop)
  */
 #include "vf.h"
 
-const uint8_t* vf_sdu_next_ll_l2cap_received(int cfg, unsigned long* out_size, int* where, long* off);
+const uint8_t* vf_sdu_next_ll_l2cap_received(int cfg, unsigned long* out_size, int* where);
 uint8_t* vf_sdu_allocate_l2cap_transmit_buffer(int cfg, unsigned long payload_size, unsigned long* out_size);
 void vf_sdu_commit_l2cap_transmit_buffer(int cfg, uint8_t* buffer, unsigned long size);
 uint8_t* vf_sdu_allocate_ll_transmit_buffer(int cfg, unsigned long payload_size, unsigned long* out_size);
 void vf_sdu_commit_ll_transmit_buffer(int cfg, uint8_t* buffer, unsigned long size);
+
+#ifdef VF_CBMC
+/* CBMC's built-in memmove with a length that is symbolic after path merging does not finish: bounded byte loop (covered by the
+ * unwinding assertions); source (transmit_buffer_) and destination (PDU buffer of the radio) are distinct objects, asserted. */
+void* memmove(void* d, const void* s, size_t n)
+{
+    uint8_t* dp = (uint8_t*)d; const uint8_t* sp = (const uint8_t*)s;
+    __CPROVER_assert(n <= MAXCOPY, "VFCHECK memmove: the SDU buffer never copies more than one PDU at once");
+    __CPROVER_assert(n == 0 || __CPROVER_POINTER_OBJECT(d) != __CPROVER_POINTER_OBJECT(s), "VFCHECK memmove: source and destination are distinct objects");
+    for (size_t i = 0; i < MAXCOPY && i < n; ++i) dp[i] = sp[i];
+    return d;
+}
+#endif
 
 #define NCFG 3
 static const unsigned MTU[NCFG]  = { 65, 65, 40 };
@@ -93,17 +107,15 @@ void harness(void)
     int rounds = (int)CASE(ROUNDS);
     mtu = MTU[cfg]; llo = 2 + LOVH[cfg];
 
-    /* inputs */
-    unsigned n = (unsigned)in_range(0, mtu);
-    if ((long)CASE(N) >= 0) n = (unsigned)CASE(N);      /* case split: SDU payload size (assigned, so that all copy sizes are constants) */
+    /* case split: SDU payload size, which requests the radio can serve, what the link layer calls afterwards (all copy sizes
+     * and loop counts become constants); inputs: every byte of the SDU incl. LL header and CID, the compared position */
+    const unsigned n = (unsigned)CASE(N);
+    const long av = (long)CASE(AV), ll = (long)CASE(LL);
+    const int all_avail = av == 0xffff;
+    for (int i = 0; i < MAXREQ; ++i) avail[i] = (int)((av >> i) & 1);
     uint8_t content[80];
     in_bytes(content, mtu + 4 + llo);
-    for (int i = 0; i < MAXREQ; ++i) avail[i] = in_bool();
-    int i_ll[8], all_avail = in_bool();
-    for (int i = 0; i < rounds; ++i) i_ll[i] = in_bool();
     J = (unsigned)in_range(0, mtu + 4 - 1);
-    if (all_avail) for (int i = 0; i < MAXREQ; ++i) avail[i] = 1;
-    if ((long)CASE(AV) >= 0) { all_avail = (long)CASE(AV) == 0xffff; for (int i = 0; i < MAXREQ; ++i) avail[i] = (int)(((long)CASE(AV) >> i) & 1); }   /* case split: which requests the radio can serve */
 
     txbuf = (uint8_t*)vf_alloc(txmax);
     memset(txbuf, 0, txmax);
@@ -121,9 +133,9 @@ void harness(void)
     if (all_avail) CHECK(sent == sdu_len, "with transmit buffers available the whole SDU is sent at once");
 
     for (int r = 0; r < rounds; ++r) {
-        unsigned long sz = 7; int where = 9; long off = 0;
-        if (i_ll[r]) {
-            (void)vf_sdu_next_ll_l2cap_received(cfg, &sz, &where, &off);
+        unsigned long sz = 7; int where = 9;
+        if ((ll >> r) & 1) {
+            (void)vf_sdu_next_ll_l2cap_received(cfg, &sz, &where);
             CHECK(where == 0 && sz == 0, "nothing is delivered when nothing was received");
         } else {
             /* the link layer wants to send a PDU of its own: pending fragments go first */
